@@ -1,5 +1,5 @@
 (* Model/C16Run.v - case type and checker evaluated on harness-generated cases (C16) *)
-From ReqV Require Export Lib.Bytes Model.HeaderOrder Model.HeaderCollect Model.HeaderMerge Model.HeaderSeq.
+From ReqV Require Export Lib.Bytes Model.HeaderOrder Model.HeaderCollect Model.HeaderMerge Model.HeaderSeq Model.HeaderResend.
 
 Inductive seq_outcome :=
 | SSent (obs : list line)    (* the origin's view of that request *)
@@ -26,7 +26,11 @@ Inductive c16_case :=
 | SeqCase (proto : nat) (max : option N) (steps : list (creq * seq_outcome))
 (* a family of clients made with Clone(): the operations, and per member the header order /
    pseudo-header order its request carried at the transport *)
-| CloneCase (ops : list fam_op) (members : list (nat * list bytes * list bytes)).
+| CloneCase (ops : list fam_op) (members : list (nat * list bytes * list bytes))
+(* ONE Request object executed several times: per execution the setter calls made on the request
+   before it, the client's header map at that moment, and the header map the protocol writer
+   received (sorted by key; cookies aside) *)
+| ResendCase (steps : list (list hdr_op * list kv * list kv)).
 
 Fixpoint ascending (l : list nat) : bool :=
   match l with
@@ -74,8 +78,17 @@ Definition clone_member_check (s : fam_state) (m : nat * list bytes * list bytes
   list_eqb bytes_eqb (in_force header_order_key (regs_order regs)) (snd (fst m)) &&
   list_eqb bytes_eqb (in_force pseudo_header_order_key (regs_porder regs)) (snd m).
 
+Fixpoint resend_check (s : list rentry) (steps : list (list hdr_op * list kv * list kv)) : bool :=
+  match steps with
+  | [] => true
+  | (ops, ch, obs) :: r =>
+      let s' := rexec (fold_left rapply_op ops s) ch in
+      list_eqb kv_eqb (sort_by_key (strip s')) obs && resend_check s' r
+  end.
+
 Definition c16_check (c : c16_case) : bool :=
   match c with
+  | ResendCase steps => resend_check [] steps
   | SeqCase proto max steps => forallb (seq_step_check proto max) steps
   | CloneCase ops members => forallb (clone_member_check (fam_run ops)) members
   | SortCase kvs order perm =>
